@@ -921,9 +921,6 @@ func c13Oracle(k c13Case, run c13Run, exp *c13Expect, rundir string) []c12Proble
 	for _, p := range k.Pre {
 		preByPath[resolve(p.Path)] = p
 	}
-	if len(run.Others) > 0 {
-		bad("the run leaves files that are not GeoPackages behind (journal?)", run.Others, nil)
-	}
 	fails := !k.TmsOK || k.NoSource || (exp != nil && exp.Panics)
 	if !fails && !k.Overwrite {
 		for _, p := range k.Pre { // outside the property's quantifier; the existing rtree makes CreateTables fail
@@ -963,6 +960,9 @@ func c13Oracle(k c13Case, run c13Run, exp *c13Expect, rundir string) []c12Proble
 	if run.Exit != 0 {
 		bad(fmt.Sprintf("exit status %d on a valid run", run.Exit), run.Stderr, 0)
 		return ps
+	}
+	if len(run.Others) > 0 {
+		bad("a successful run leaves files that are not GeoPackages behind (journal?)", run.Others, nil)
 	}
 	// exactly one file per id, named by inserting _<id> before the extension
 	want := map[string]int{}
